@@ -69,6 +69,42 @@ func runSelftest(c *core.Ctx) error {
 	stExpect(c, "lenlaws-genuine", "LenLaws", "LenLaws.cfg", [][]byte{ok}, false)
 	stExpect(c, "lenlaws-boundary-moved", "LenLaws", "LenLaws.cfg", [][]byte{[]byte(strings.Replace(string(ok), `"lenst":8`, `"lenst":9`, 1))}, true)
 	stExpect(c, "lenlaws-not-idempotent", "LenLaws", "LenLaws.cfg", [][]byte{[]byte(strings.Replace(string(ok), `"lenp":8`, `"lenp":7`, 1))}, true)
+	// JSchemaLexTrace: a genuine event stream of the schema scanner, then spans, order and separators corrupted
+	lx := lexTrace("{\n  \"k\": [ // {minItems: 1} - note\n    1,\n    @a | @b\n  ],\n  @s: \"v\" /* {type: \"string\"} */\n}")
+	find := func(sub string, nth int) int {
+		for i, l := range lx {
+			if strings.Contains(string(l), sub) {
+				if nth == 0 {
+					return i
+				}
+				nth--
+			}
+		}
+		panic("selftest: no line with " + sub)
+	}
+	bump := func(i int, field string, delta int) [][]byte {
+		var m map[string]any
+		if json.Unmarshal(lx[i], &m) != nil {
+			panic("selftest: bad line")
+		}
+		m[field] = int(m[field].(float64)) + delta
+		b, _ := json.Marshal(m)
+		out := append([][]byte{}, lx...)
+		out[i] = b
+		return out
+	}
+	stExpect(c, "lexemes-genuine", "JSchemaLexTrace", "JSchemaLexTrace.cfg", lx, false)
+	ke := find(`"t":"key-end"`, 0)
+	stExpect(c, "lexemes-span-end-moved", "JSchemaLexTrace", "JSchemaLexTrace.cfg", bump(ke, "e", 1), true)
+	stExpect(c, "lexemes-event-removed", "JSchemaLexTrace", "JSchemaLexTrace.cfg", dropLine(lx, ke), true)
+	ib := find(`"comma":1`, 0)
+	stExpect(c, "lexemes-comma-lost", "JSchemaLexTrace", "JSchemaLexTrace.cfg", replaceIn(lx, ib, `"comma":1`, `"comma":0`), true)
+	le := find(`"t":"literal-end"`, 1)
+	stExpect(c, "lexemes-literal-swallows-blank", "JSchemaLexTrace", "JSchemaLexTrace.cfg", replaceIn(lx, le, `"scalar":true`, `"scalar":false`), true)
+	ve := find(`"t":"value-end"`, 0)
+	stExpect(c, "lexemes-member-span-differs-from-value", "JSchemaLexTrace", "JSchemaLexTrace.cfg", bump(ve, "e", -1), true)
+	oe := find(`"t":"object-end"`, 2)
+	stExpect(c, "lexemes-unclosed-but-complete", "JSchemaLexTrace", "JSchemaLexTrace.cfg", dropLine(lx, oe), true)
 	// replay checks: a wrong observable must be flagged (stub cases with a wrong expectation)
 	if len(omEval(omCase{Container: "RuleASTNodes", Ops: []omOp{{Op: "set", K: "k1", V: "v1"}}, Expect: []omState{{Order: []string{"k2"}, Data: map[string]string{"k2": "v1"}}}})) == 0 {
 		c.Report("c19-stub", []core.Finding{{Class: "selftest:c19-stub", What: "a wrong expected state was not flagged"}})
